@@ -18,6 +18,10 @@ def signature(c, o):
     doc = l1.lstrip().startswith("---") or l2.lstrip().startswith("---")
     if not d["ws_only"]:
         return "C06/tokens/%s" % (d["stat"] if doc else d["node"])
+    # only the gap in front of a trailing line comment differs (code part and comment text identical)
+    p1, p2 = l1.find("--"), l2.find("--")
+    if p1 > 0 and p2 > 0 and l1[:p1].strip() and l1[:p1].rstrip() == l2[:p2].rstrip() and l1[p1:] == l2[p2:]:
+        return "C06/space/trailing-comment-gap/%s" % d.get("owner", "none")
     if squeeze(l1) == squeeze(l2):
         if l1.strip() == l2.strip():
             return "C06/indent/%s" % ("doc" if doc else d["node"])
@@ -31,6 +35,9 @@ def signature(c, o):
 
 def run(ctx):
     cases = _fmt.gen_cases(ctx, n_single=ctx.pick(2500, 100000), n_sim=ctx.pick(500, 3000), max_files=ctx.pick(12, 1000))
+    # dense families (spec/FmtFocus.tla): trailing-comment groups x comment options (pairwise in quick, full product in
+    # thorough), doc blocks x emmy_doc options, escape-sequence strings x quote_style x call-parens
+    cases += _fmt.focus_cases(ctx, len(cases))
     out = _fmt.run_formatter(ctx, cases, tokens=False)
     runs = []
     found = {}
@@ -81,10 +88,12 @@ def run(ctx):
                                           "second_pass_line": o2.get("drift", {}).get("line2")})
     ctx.note("cli_files_written_then_checked", len(cli))
     ctx.note("cli_files_reported_different_after_write", default_cfg_drift)
-    for c in cases[:2] + cases[-6:-4]:
+    first = lambda pre: [c for c in cases if c["src"].startswith(pre)][:1]
+    for c in cases[:2] + first("std/") + first("focus/comment") + first("focus/doc") + first("focus/quote"):
         ctx.sample({"src": c["src"], "text": c["text"][:200], "cfg": _fmt.model_cfg(c["cfg"])})
     for sig, ds in sorted(found.items()):
         ctx.violation(sig, {"count": len(ds), "sources": sorted({d["src"] for d in ds})[:12], "first": ds[0], "more": ds[1:3]})
-    ctx.rule("a case = (program, configuration) as in C05; non-trivial = the first pass changed the text; "
+    ctx.rule("a case = (program, configuration) as in C05 (incl. the FmtFocus.tla families: trailing-comment groups x "
+             "comment options pairwise / full, doc blocks x emmy_doc options, escape strings x quote_style); non-trivial = the first pass changed the text; "
              "accepted iff the second pass returns its input byte for byte (judged as an `idem` run of FmtTokens.tla)")
     ctx.assume("signature of a drift = (whitespace-only or not, enclosing statement kind, innermost node kind at the first differing byte)")
